@@ -1,6 +1,7 @@
 //! simcheck - deterministic simulation of squitterator with fault injection.
 mod carried;
 mod driver;
+mod e2e;
 mod ehs;
 mod exec;
 mod gen;
@@ -97,6 +98,15 @@ fn main() {
                 if a.iter().any(|x| x == "--out") && !s.out.is_empty() { println!("{}", s.out); }
             }
             println!("outcome={:?} end_t={:.6} unread_ops={}", h.outcome, (h.end_t_us - exec::T0_US) as f64 / 1e6, h.unread_ops);
+        }
+        "e2e" => {
+            let n = opt("--n").and_then(|s| s.parse().ok()).unwrap_or(100);
+            std::process::exit(e2e::run(n, seed));
+        }
+        "selftest" => {
+            let n = opt("--n").and_then(|s| s.parse().ok()).unwrap_or(2000);
+            let ids: Vec<String> = a.iter().skip(3).filter(|x| x.starts_with('C')).cloned().collect();
+            std::process::exit(driver::selftest_determinism(&ids, n, seed));
         }
         "digest" => {
             // digest <PROP> <seed> <start> <stride> <n>  -> one line per run
